@@ -198,6 +198,20 @@ func c16Invalidations() []invDev {
 	post("ext-duplicate-key", "ext", "", "", func(r *reqSpec, req *signature.SignRequest, rs *envenc.RemoteSigner) {
 		req.ExtendedSignedAttributes = []signature.Attribute{attr("io.example.a", true, 1), attr("io.example.a", false, 2)}
 	})
+	// the same integer label twice, written with the same or with different Go integer types (one CBOR label either way)
+	for _, p := range []struct {
+		n    string
+		a, b any
+	}{{"int,int", 1000, 1000}, {"int64,int64", int64(1000), int64(1000)}, {"int64,int", int64(1000), 1000}, {"int,int64", 1000, int64(1000)}, {"int,uint16", 1000, uint16(1000)},
+		{"uint8,uint8", uint8(200), uint8(200)}, {"int8,int(negative)", int8(-5), -5}, {"uint64,int32", uint64(77), int32(77)}} {
+		p := p
+		for _, crit := range [][2]bool{{false, false}, {true, false}, {false, true}} {
+			crit := crit
+			post(fmt.Sprintf("cose-ext-duplicate-integer-key(%s;critical=%v,%v)", p.n, crit[0], crit[1]), "ext", "cose", "", func(r *reqSpec, req *signature.SignRequest, rs *envenc.RemoteSigner) {
+				req.ExtendedSignedAttributes = []signature.Attribute{attr(p.a, crit[0], "first"), attr("io.example.between", false, 0), attr(p.b, crit[1], "second")}
+			})
+		}
+	}
 	future := pki.Now.Add(1000 * time.Hour).Truncate(time.Second)
 	for _, h := range []struct {
 		n string
